@@ -350,9 +350,9 @@ Definition spec_cfg_tok (s : sstate) : tok := TCfg (map (fun i => fs_sid (st c i
    4: a final state is entered (or active) below a <parallel> that is more than two levels up
    8: (static) a deep history's parent has a proper descendant that owns a history of its own: the
       engines keep all history values in one bit array, so the two histories share bits
-   16: an enabled transition targets the <history> of a state that encloses its source: Appendix D takes
-      the domain from the effective targets (and then enters the states between the history's parent and
-      them although they were not exited); the engines take it from the history element *)
+   16: an enabled transition has a <history> target and Appendix D's domain, taken from the effective targets,
+      differs from the domain measured from the history element itself, which is what the engines use
+      (Appendix D then enters the states between the two domains although they were not exited) *)
 Definition all_enabled (cfg : list nat) (ev : option event) (x : xstate) : list nat :=
   filter (fun ti =>
             let t := tr c ti in
@@ -366,7 +366,17 @@ Definition all_enabled (cfg : list nat) (ev : option event) (x : xstate) : list 
             | Some cnd => match beval (inst_of c cfg) (x_store x) cnd with Some b => b | None => false end
             end) (seq 0 (ntrans c)).
 
-Definition diag (cfg : list nat) (ev : option event) (x : xstate) : N :=
+(* the domain measured from the targets as written (a <history> element counts as itself): what the engines use *)
+Definition raw_domain (t : ftrans) : option nat :=
+  match ft_targets t with
+  | [] => None
+  | ts =>
+    if ft_internal t && is_compound_state (ft_source t) && forallb (fun s => is_descendant s (ft_source t)) ts
+    then Some (ft_source t)
+    else find_lcca (ft_source t :: ts)
+  end.
+
+Definition diag (h : hv) (cfg : list nat) (ev : option event) (x : xstate) : N :=
   let en := all_enabled cfg ev x in
   let ap := existsb (fun t1 => existsb (fun t2 => is_descendant (ft_source (tr c t2)) (ft_source (tr c t1))) en) en in
   let ss := existsb (fun t1 => existsb (fun t2 => negb (t1 =? t2) && (ft_source (tr c t1) =? ft_source (tr c t2))) en) en in
@@ -383,11 +393,13 @@ Definition diag (cfg : list nat) (ev : option event) (x : xstate) : N :=
                                                     end) (seq 0 n)
                                | _, _ => false
                                end) (seq 0 n) in
-  let ht := existsb (fun ti => existsb (fun x => is_history_state x &&
-                                                match fs_parent (st c x) with
-                                                | Some p => is_descendant (ft_source (tr c ti)) p
-                                                | None => false
-                                                end) (ft_targets (tr c ti))) en in
+  let ht := existsb (fun ti =>
+                       let t := tr c ti in
+                       negb (match transition_domain h t, raw_domain t with
+                             | Some a, Some b => a =? b
+                             | None, None => true
+                             | _, _ => false
+                             end)) en in
   ((if ap then 1 else 0) + (if ss then 2 else 0) + (if dd then 4 else 0) + (if ho then 8 else 0) +
    (if ht then 16 else 0))%N.
 
@@ -414,14 +426,14 @@ Fixpoint spec_loop (fuel : nat) (s : sstate) (x : xstate) (evs : list bytes) : s
     else
       let '(en, x1) := select_transitions (s_cfg s) (s_hv s) None x in
       match en with
-      | _ :: _ => let '(s', x') := spec_microstep_d (diag (s_cfg s) None x) en s x1 in spec_loop f s' x' evs
+      | _ :: _ => let '(s', x') := spec_microstep_d (diag (s_hv s) (s_cfg s) None x) en s x1 in spec_loop f s' x' evs
       | [] =>
         match x_iq x1 with
         | e :: r =>
           let x2 := emit (TEv (ev_name e)) {| x_store := x_store x1; x_iq := r; x_eq := x_eq x1; x_out := x_out x1 |} in
           let '(en, x3) := select_transitions (s_cfg s) (s_hv s) (Some e) x2 in
           match en with
-          | _ :: _ => let '(s', x') := spec_microstep_d (diag (s_cfg s) (Some e) x2) en s x3 in spec_loop f s' x' evs
+          | _ :: _ => let '(s', x') := spec_microstep_d (diag (s_hv s) (s_cfg s) (Some e) x2) en s x3 in spec_loop f s' x' evs
           | [] => spec_loop f s x3 evs
           end
         | [] =>
@@ -439,7 +451,7 @@ Fixpoint spec_loop (fuel : nat) (s : sstate) (x : xstate) (evs : list bytes) : s
             let x3 := emit (TEv (ev_name e)) x2 in
             let '(en, x4) := select_transitions (s_cfg s) (s_hv s) (Some e) x3 in
             match en with
-            | _ :: _ => let '(s', x') := spec_microstep_d (diag (s_cfg s) (Some e) x3) en s x4 in spec_loop f s' x' evs'
+            | _ :: _ => let '(s', x') := spec_microstep_d (diag (s_hv s) (s_cfg s) (Some e) x3) en s x4 in spec_loop f s' x' evs'
             | [] => spec_loop f s x4 evs'
             end
           end
@@ -466,7 +478,7 @@ Definition spec_run (evs : list bytes) (fuel : nat) : list tok * store :=
   (* enterStates([doc.initial.transition]) *)
   let e := fold_left (fun e s => add_ancestors spec_fuel [] s (Some 0) (add_descendants spec_fuel [] s e))
                      (fst (initial_of 0)) {| e_enter := []; e_default := []; e_histcontent := [] |} in
-  let '(s1, x2) := enter_states_e e s0 (emit (TDiag (diag [] None x1)) (emit TMsB x1)) in
+  let '(s1, x2) := enter_states_e e s0 (emit (TDiag (diag [] [] None x1)) (emit TMsB x1)) in
   let x3 := emit (spec_cfg_tok s1) (emit TMsE x2) in
   let '(s2, x4) := spec_loop fuel s1 x3 evs in
   let x5 := if s_running s2 then x4 else exit_interpreter s2 x4 in
